@@ -150,12 +150,21 @@ def w_lats(arg):
                             s = judge(("position",) + args + (exp,))
                             if s:
                                 acc.bad(s, {"p": ["position"] + list(args) + [exp], "true": [float(lat), float(lon)]})
-                if disp == (0, 0) and k % 7 == 0:
-                    for a, b in ((m0, m0), (m1, m1)):
+                if k % 7 == 0 or disp == (0, 0):
+                    # two frames of the SAME parity (identical, or the same aircraft a little further on) have no global
+                    # solution: RuntimeError, whatever else is passed along (receiver location near / far / (0, 0))
+                    latB, lonB = C.offset_nm(lat, lon, disp[0], disp[1])
+                    eb, ea = C.encode(latB, lonB, 0), C.encode(lat, lon, 1)
+                    m0b = F.es(C.me_airborne(partner_tc(tc, 1), 0x5A3, 0, eb["yz"], eb["xz"]), int(m0[2:8], 16), 5, 17)
+                    m1a = F.es(C.me_airborne(partner_tc(tc, 2), 0x5A3, 1, ea["yz"], ea["xz"]), int(m0[2:8], 16), 5, 17)
+                    for j, (a, b) in enumerate(((m0, m0), (m1, m1), (m0, m0b), (m0b, m0), (m1a, m1), (m1, m1a))):
+                        refs = [None, (float(lat) + 0.2, float(lon) - 0.3), (0, 0), (-float(lat) / 2 + 10.0, 179.0)][(k // 7 + j) % 4]
+                        fn = "airborne_position" if (refs is None and (k + j) % 2) else "position"
+                        tt = ts_pair(k + j, j % 2 == 0)
                         acc.n += 1
-                        s = judge(("position", a, b, 1, 2, "RuntimeError"))
+                        s = judge((fn, a, b, tt[0], tt[1], "RuntimeError", refs))
                         if s:
-                            acc.bad(s, {"p": ["position", a, b, 1, 2, "RuntimeError"]})
+                            acc.bad(s + (":with_receiver_location" if refs else ""), {"p": [fn, a, b, tt[0], tt[1], "RuntimeError", refs]})
     if lats:
         acc.samples.append({"lat": float(lats[0]), "even": m0, "odd": m1})
     return acc.res()
